@@ -10,3 +10,7 @@ require (
 	golang.org/x/mod v0.22.0 // indirect
 	golang.org/x/sync v0.10.0 // indirect
 )
+
+// a pruned copy of golang.org/x/tools v0.29.0 (go/ssa, go/packages, go/callgraph, go/types, internal/...) whose
+// go/ssa builder can inline calls of functions selected by ssa.InlineFilter (see DESIGN.md 8.7)
+replace golang.org/x/tools => ./xtools
